@@ -17,7 +17,8 @@ Ltac unfold_step :=
     do_check_timeouts, do_renew, do_start, enter_senescence, can_senesce, transition_to,
     set_phase, limit_passed, is_dead, renew_amount in *;
   cbn [legacy_senescence reentrant current ph len ops_count err_count renewals sen_reason
-       started_at last_activity now fst snd phase_eqb] in *.
+       started_at last_activity now fst snd phase_eqb cfg_step
+       max_ops err_threshold allow_renewal max_lifetime idle_timeout] in *.
 
 Ltac split_ifs :=
   repeat match goal with
@@ -26,10 +27,62 @@ Ltac split_ifs :=
          end.
 
 (* ---------------------------------------------------------------------- *)
+(* the configuration in force                                               *)
+
+Lemma cfg_exec_app : forall a cfg b, cfg_exec cfg (a ++ b) = cfg_exec (cfg_exec cfg a) b.
+Proof. induction a as [|o r IH]; intros cfg b; cbn [cfg_exec app]; [reflexivity|apply IH]. Qed.
+
+(* an attribute nobody assigns keeps the value the constructor was given *)
+Lemma config_unassigned_proof :
+  forall ops cfg,
+    (Forall (fun o => assigns_max_ops o = false) ops -> max_ops (cfg_exec cfg ops) = max_ops cfg) /\
+    (Forall (fun o => assigns_err_threshold o = false) ops ->
+       err_threshold (cfg_exec cfg ops) = err_threshold cfg) /\
+    (Forall (fun o => assigns_allow_renewal o = false) ops ->
+       allow_renewal (cfg_exec cfg ops) = allow_renewal cfg) /\
+    (Forall (fun o => assigns_max_lifetime o = false) ops ->
+       max_lifetime (cfg_exec cfg ops) = max_lifetime cfg) /\
+    (Forall (fun o => assigns_idle_timeout o = false) ops ->
+       idle_timeout (cfg_exec cfg ops) = idle_timeout cfg).
+Proof.
+  induction ops as [|o r IH]; intros cfg; cbn [cfg_exec]; [repeat split; reflexivity|].
+  destruct (IH (cfg_step cfg o)) as (A & B & C & D & E).
+  repeat split; intros H; inversion H as [|? ? Ho Hr]; subst;
+    [rewrite (A Hr)|rewrite (B Hr)|rewrite (C Hr)|rewrite (D Hr)|rewrite (E Hr)];
+    destruct o; cbn in Ho |- *; try reflexivity; discriminate Ho.
+Qed.
+
+(* the value in force is the one assigned last *)
+Lemma config_last_assignment_proof :
+  forall cfg ops ops',
+    (forall n, Forall (fun o => assigns_max_ops o = false) ops' ->
+       max_ops (cfg_exec cfg (ops ++ SetMaxOps n :: ops')) = n) /\
+    (forall n, Forall (fun o => assigns_err_threshold o = false) ops' ->
+       err_threshold (cfg_exec cfg (ops ++ SetErrThreshold n :: ops')) = n) /\
+    (forall b, Forall (fun o => assigns_allow_renewal o = false) ops' ->
+       allow_renewal (cfg_exec cfg (ops ++ SetAllowRenewal b :: ops')) = b) /\
+    (forall l, Forall (fun o => assigns_max_lifetime o = false) ops' ->
+       max_lifetime (cfg_exec cfg (ops ++ SetMaxLifetime l :: ops')) = l) /\
+    (forall l, Forall (fun o => assigns_idle_timeout o = false) ops' ->
+       idle_timeout (cfg_exec cfg (ops ++ SetIdleTimeout l :: ops')) = l).
+Proof.
+  intros cfg ops ops'.
+  repeat split; intros x H; rewrite cfg_exec_app; cbn [cfg_exec];
+    match goal with |- context [cfg_exec ?c ops'] => destruct (config_unassigned_proof ops' c) as (A & B & C & D & E) end;
+    [rewrite (A H)|rewrite (B H)|rewrite (C H)|rewrite (D H)|rewrite (E H)]; reflexivity.
+Qed.
+
+(* ---------------------------------------------------------------------- *)
 (* specification vocabulary                                                 *)
 
-(* range invariant *)
-Definition in_range (cfg : config) (s : state) : Prop := 0 <= len s <= max_ops cfg.
+(* what every valid history keeps: max_operations and the length are not
+   negative, and with max_operations = 0 nothing is left *)
+Definition sane (cfg : config) (s : state) : Prop :=
+  0 <= max_ops cfg /\ 0 <= len s /\ (max_ops cfg = 0 -> len s = 0).
+
+(* M bounds the max_operations in force and the length *)
+Definition within (M : Z) (cfg : config) (s : state) : Prop :=
+  max_ops cfg <= M /\ len s <= M.
 
 (* a started lifecycle knows when it started and when it was last active *)
 Definition timed (s : state) : Prop :=
@@ -44,7 +97,12 @@ Section Proofs.
   Notation strans := (step_trans depleted rate_hit current).
   Notation execc := (exec depleted rate_hit current).
   Notation streamc := (stream depleted rate_hit current).
+  Notation outcomesc := (outcomes depleted rate_hit current).
   Notation exec_countc := (exec_count depleted rate_hit current).
+
+  Lemma exec_app : forall a cfg s b,
+      execc cfg s (a ++ b) = execc (cfg_exec cfg a) (execc cfg s a) b.
+  Proof. induction a as [|o r IH]; intros cfg s b; cbn [exec cfg_exec app]; [reflexivity|apply IH]. Qed.
 
   (* -------------------------------------------------------------------- *)
   (* legal transitions                                                      *)
@@ -64,7 +122,7 @@ Section Proofs.
     forall cfg ops s,
       Forall (fun t => allowed (fst t) (snd t) = true) (streamc cfg s ops).
   Proof.
-    intros cfg ops; induction ops as [|o rest IH]; intros s; cbn [stream].
+    intros cfg ops; revert cfg; induction ops as [|o rest IH]; intros cfg s; cbn [stream].
     - constructor.
     - apply Forall_app; split; [|apply IH].
       destruct (legal_step_proof cfg s o) as [H _].
@@ -84,7 +142,7 @@ Section Proofs.
   Lemma terminated_absorbing_proof :
     forall cfg ops s, ph s = Terminated -> ~ In Reset ops -> ph (execc cfg s ops) = Terminated.
   Proof.
-    intros cfg ops; induction ops as [|o rest IH]; intros s Hp Hn; cbn [exec]; [exact Hp|].
+    intros cfg ops; revert cfg; induction ops as [|o rest IH]; intros cfg s Hp Hn; cbn [exec]; [exact Hp|].
     apply IH.
     - apply terminated_step; [exact Hp|]. intro E; apply Hn; left; auto.
     - intro Hin; apply Hn; right; exact Hin.
@@ -122,30 +180,65 @@ Section Proofs.
   Qed.
 
   (* -------------------------------------------------------------------- *)
+  (* an attribute assignment changes nothing but the configuration          *)
+
+  Lemma assignment_step_proof :
+    forall cfg s o, is_assignment o = true -> stepc cfg s o = (s, Ret RNone, []).
+  Proof. intros cfg s o H; destruct o; cbn in H; try discriminate H; reflexivity. Qed.
+
+  Lemma call_keeps_config_proof :
+    forall cfg o, is_assignment o = false -> cfg_step cfg o = cfg.
+  Proof. intros cfg o H; destruct o; cbn in H; try discriminate H; reflexivity. Qed.
+
+  (* -------------------------------------------------------------------- *)
   (* invariants                                                             *)
 
-  Lemma in_range_init : forall cfg, 0 <= max_ops cfg -> in_range cfg (init cfg).
-  Proof. intros cfg H; unfold in_range, init; cbn; lia. Qed.
+  Lemma sane_init : forall cfg, 0 <= max_ops cfg -> sane cfg (init cfg).
+  Proof. intros cfg H; unfold sane, init; cbn; lia. Qed.
 
-  Lemma in_range_step :
-    forall cfg s o, in_range cfg s -> valid_op o -> in_range cfg (sstate cfg s o).
+  Lemma sane_step :
+    forall cfg s o, sane cfg s -> valid_op o -> sane (cfg_step cfg o) (sstate cfg s o).
   Proof.
-    intros cfg [p l n e r sr sa la t] o. unfold in_range. cbn [len]. intros Hr Hv.
+    intros cfg [p l n e r sr sa la t] o. unfold sane. cbn [len]. intros Hr Hv.
     destruct o; try destruct amount; destruct p; cbn [valid_op] in Hv;
       unfold_step; split_ifs; cbn [len fst snd]; lia.
   Qed.
 
-  Lemma in_range_exec :
-    forall cfg ops s, in_range cfg s -> Forall valid_op ops -> in_range cfg (execc cfg s ops).
+  Lemma sane_exec :
+    forall ops cfg s, sane cfg s -> Forall valid_op ops -> sane (cfg_exec cfg ops) (execc cfg s ops).
   Proof.
-    intros cfg ops; induction ops as [|o rest IH]; intros s Hr Hv; cbn [exec]; [exact Hr|].
-    inversion Hv; subst. apply IH; [apply in_range_step|]; assumption.
+    induction ops as [|o rest IH]; intros cfg s Hr Hv; cbn [exec cfg_exec]; [exact Hr|].
+    inversion Hv; subst. apply IH; [apply sane_step|]; assumption.
+  Qed.
+
+  Lemma within_step :
+    forall M cfg s o, sane cfg s -> within M cfg s -> valid_op o -> max_ops_within M o ->
+                      within M (cfg_step cfg o) (sstate cfg s o).
+  Proof.
+    intros M cfg [p l n e r sr sa la t] o. unfold sane, within. cbn [len]. intros Hs Hr Hv Hm.
+    destruct o; try destruct amount; destruct p; cbn [valid_op max_ops_within] in Hv, Hm;
+      unfold_step; split_ifs; cbn [len fst snd]; lia.
+  Qed.
+
+  Lemma within_exec :
+    forall M ops cfg s, sane cfg s -> within M cfg s -> Forall valid_op ops -> Forall (max_ops_within M) ops ->
+                        within M (cfg_exec cfg ops) (execc cfg s ops).
+  Proof.
+    intros M; induction ops as [|o rest IH]; intros cfg s Hs Hr Hv Hm; cbn [exec cfg_exec]; [exact Hr|].
+    inversion Hv; inversion Hm; subst. apply IH; try assumption; [apply sane_step|apply within_step]; assumption.
   Qed.
 
   Lemma length_in_range_proof :
-    forall cfg ops, 0 <= max_ops cfg -> Forall valid_op ops ->
-                    0 <= len (execc cfg (init cfg) ops) <= max_ops cfg.
-  Proof. intros cfg ops H Hv. apply in_range_exec; [apply in_range_init; exact H|exact Hv]. Qed.
+    forall cfg ops M, 0 <= max_ops cfg <= M -> Forall valid_op ops -> Forall (max_ops_within M) ops ->
+                      0 <= len (execc cfg (init cfg) ops) <= M.
+  Proof.
+    intros cfg ops M H Hv Hm.
+    assert (Hs : sane cfg (init cfg)) by (apply sane_init; lia).
+    assert (Hw : within M cfg (init cfg)) by (unfold within, init; cbn; lia).
+    pose proof (sane_exec ops cfg (init cfg) Hs Hv) as (_ & A & _).
+    pose proof (within_exec M ops cfg (init cfg) Hs Hw Hv Hm) as (_ & B).
+    lia.
+  Qed.
 
   Lemma timed_init : forall cfg, timed (init cfg).
   Proof. intros cfg [H|H]; cbn in H; discriminate. Qed.
@@ -159,9 +252,9 @@ Section Proofs.
         intros [H|H]; try discriminate; eauto.
   Qed.
 
-  Lemma timed_exec : forall cfg ops s, timed s -> timed (execc cfg s ops).
+  Lemma timed_exec : forall ops cfg s, timed s -> timed (execc cfg s ops).
   Proof.
-    intros cfg ops; induction ops as [|o rest IH]; intros s Ht; cbn [exec]; [exact Ht|].
+    induction ops as [|o rest IH]; intros cfg s Ht; cbn [exec]; [exact Ht|].
     apply IH. apply timed_step. exact Ht.
   Qed.
 
@@ -171,31 +264,58 @@ Section Proofs.
   (* one call: either it is a renewal (counters restart), or the length does
      not grow and a tick that reports True costs exactly its cost *)
   Lemma hayflick_step :
-    forall cfg s o, in_range cfg s -> valid_op o ->
+    forall cfg s o, 0 <= len s -> valid_op o ->
       is_renewal o (sout cfg s o) = false ->
-      len (sstate cfg s o) <= len s /\
+      0 <= len (sstate cfg s o) <= len s /\
       (is_true_tick o (sout cfg s o) = true -> len (sstate cfg s o) = len s - tick_cost o).
   Proof.
-    intros cfg [p l n e r sr sa la t] o. unfold in_range. cbn [len]. intros Hr Hv.
+    intros cfg [p l n e r sr sa la t] o. cbn [len]. intros Hr Hv.
     destruct o; try destruct amount; destruct p; cbn [valid_op] in Hv;
       unfold_step; split_ifs; cbn [len fst snd is_renewal is_true_tick tick_cost];
         intros Hn; try discriminate Hn; (split; [lia | intros Ht; try discriminate Ht; lia]).
   Qed.
 
-  Lemma hayflick_exec :
-    forall cfg ops s n spent,
-      in_range cfg s -> Forall valid_op ops ->
-      0 <= n <= spent -> spent + len s <= max_ops cfg ->
-      let '(s', n', spent') := exec_countc cfg s n spent ops in
-      0 <= n' <= spent' /\ spent' + len s' <= max_ops cfg.
+  (* a renewal (renew that returns True, reset) fills the telomere to at most
+     the max_operations then in force *)
+  Lemma renewal_fills :
+    forall cfg s o, sane cfg s -> valid_op o ->
+      is_renewal o (sout cfg s o) = true ->
+      0 <= len (sstate cfg s o) <= max_ops cfg /\ cfg_step cfg o = cfg.
   Proof.
-    intros cfg ops; induction ops as [|o rest IH]; intros s n spent Hr Hv Hn Hp; cbn [exec_count].
-    - split; assumption.
-    - inversion Hv as [|? ? Hvo Hvr]; subst.
-      pose proof (in_range_step cfg s o Hr Hvo) as Hr'.
+    intros cfg [p l n e r sr sa la t] o. unfold sane. cbn [len]. intros Hr Hv.
+    destruct o; try destruct amount; destruct p; cbn [valid_op] in Hv;
+      unfold_step; split_ifs; cbn [len fst snd is_renewal];
+        intros Hn; try discriminate Hn; (split; [lia|reflexivity]).
+  Qed.
+
+  Lemma exec_count_state :
+    forall ops cfg s cap n spent,
+      fst (fst (fst (exec_countc cfg s cap n spent ops))) = execc cfg s ops.
+  Proof.
+    induction ops as [|o rest IH]; intros cfg s cap n spent; cbn [exec_count exec]; [reflexivity|].
+    destruct (is_renewal o (sout cfg s o)); [apply IH|].
+    destruct (is_true_tick o (sout cfg s o)); apply IH.
+  Qed.
+
+  Lemma hayflick_exec :
+    forall M ops cfg s cap n spent,
+      sane cfg s -> max_ops cfg <= M -> cap <= M ->
+      Forall valid_op ops -> Forall (max_ops_within M) ops ->
+      0 <= n <= spent -> spent + len s <= cap ->
+      let '(s', cap', n', spent') := exec_countc cfg s cap n spent ops in
+      0 <= n' <= spent' /\ spent' + len s' <= cap' /\ cap' <= M /\ 0 <= len s'.
+  Proof.
+    intros M; induction ops as [|o rest IH]; intros cfg s cap n spent Hs HM Hc Hv Hm Hn Hp; cbn [exec_count].
+    - destruct Hs as (_ & A & _). repeat split; try assumption; lia.
+    - inversion Hv as [|? ? Hvo Hvr]; inversion Hm as [|? ? Hmo Hmr]; subst.
+      pose proof (sane_step cfg s o Hs Hvo) as Hs'.
+      assert (HM' : max_ops (cfg_step cfg o) <= M).
+      { destruct o; cbn [cfg_step max_ops max_ops_within] in *; lia. }
       destruct (is_renewal o (sout cfg s o)) eqn:Eren.
-      + apply IH; try assumption; unfold in_range in Hr'; lia.
-      + destruct (hayflick_step cfg s o Hr Hvo Eren) as [Hle Htt].
+      + destruct (renewal_fills cfg s o Hs Hvo Eren) as [Hf _].
+        apply IH; try assumption; lia.
+      + destruct Hs as (_ & Hl & _).
+        destruct (hayflick_step cfg s o Hl Hvo Eren) as [Hle Htt].
         destruct (is_true_tick o (sout cfg s o)) eqn:Ett.
         * specialize (Htt eq_refl).
           assert (0 <= tick_cost o) by (destruct o; cbn in *; lia).
@@ -206,25 +326,20 @@ Section Proofs.
   Qed.
 
   Lemma hayflick_proof :
-    forall cfg ops, 0 <= max_ops cfg -> Forall valid_op ops ->
-      let '(s', n, spent) := exec_countc cfg (init cfg) 0 0 ops in
-      0 <= n /\ n <= spent /\ n + len s' <= max_ops cfg /\
-      spent + len s' <= max_ops cfg /\ n <= max_ops cfg.
+    forall cfg ops M, 0 <= max_ops cfg <= M -> Forall valid_op ops -> Forall (max_ops_within M) ops ->
+      let '(s', cap, n, spent) := exec_countc cfg (init cfg) (max_ops cfg) 0 0 ops in
+      s' = execc cfg (init cfg) ops /\
+      0 <= n /\ n <= spent /\ n + len s' <= cap /\
+      spent + len s' <= cap /\ n <= cap /\ cap <= M.
   Proof.
-    intros cfg ops H Hv.
-    pose proof (hayflick_exec cfg ops (init cfg) 0 0 (in_range_init cfg H) Hv) as HH.
-    assert (Hc := in_range_exec cfg ops (init cfg) (in_range_init cfg H) Hv).
-    destruct (exec_countc cfg (init cfg) 0 0 ops) as [[s' n] spent] eqn:E.
-    assert (Hs : 0 <= len s').
-    { (* the state component of exec_count is exec *)
-      assert (G : forall ops s n spent, fst (fst (exec_countc cfg s n spent ops)) = execc cfg s ops).
-      { clear. intros ops; induction ops as [|o rest IH]; intros s n spent; cbn [exec_count exec]; [reflexivity|].
-        destruct (is_renewal o (sout cfg s o)); [apply IH|].
-        destruct (is_true_tick o (sout cfg s o)); apply IH. }
-      specialize (G ops (init cfg) 0 0). rewrite E in G. cbn in G. subst s'.
-      unfold in_range in Hc. lia. }
-    specialize (HH ltac:(lia)). cbn [init len] in HH. specialize (HH ltac:(lia)).
-    lia.
+    intros cfg ops M H Hv Hm.
+    assert (Hs : sane cfg (init cfg)) by (apply sane_init; lia).
+    pose proof (hayflick_exec M ops cfg (init cfg) (max_ops cfg) 0 0 Hs) as HH.
+    pose proof (exec_count_state ops cfg (init cfg) (max_ops cfg) 0 0) as G.
+    destruct (exec_countc cfg (init cfg) (max_ops cfg) 0 0 ops) as [[[s' cap] n] spent] eqn:E.
+    cbn [fst] in G.
+    specialize (HH ltac:(lia) ltac:(lia) Hv Hm ltac:(lia)). cbn [init len] in HH. specialize (HH ltac:(lia)).
+    split; [exact G|]. lia.
   Qed.
 
   (* -------------------------------------------------------------------- *)
@@ -237,6 +352,82 @@ Section Proofs.
     intros cfg s a re [H|H]; cbn [step]; unfold do_renew; rewrite H; cbn.
     - reflexivity.
     - destruct (negb (allow_renewal cfg)); reflexivity.
+  Qed.
+
+  (* ... whatever the constructor was told and whatever happened before: what
+     counts is the value of allow_renewal assigned last *)
+  Lemma renew_refused_after_revocation_proof :
+    forall cfg s ops ops' a re,
+      Forall (fun o => assigns_allow_renewal o = false) ops' ->
+      stepc (cfg_exec cfg (ops ++ SetAllowRenewal false :: ops'))
+            (execc cfg s (ops ++ SetAllowRenewal false :: ops')) (Renew a re)
+      = (execc cfg s (ops ++ SetAllowRenewal false :: ops'), Ret (RBool false), []).
+  Proof.
+    intros cfg s ops ops' a re H. apply renew_refused_proof. left.
+    destruct (config_last_assignment_proof cfg ops ops') as (_ & _ & C & _). exact (C false H).
+  Qed.
+
+  (* while renewal is disallowed nothing refills the telomere (reset aside) *)
+  Lemma revoked_step :
+    forall cfg s o, allow_renewal cfg = false -> assigns_allow_renewal o = false -> o <> Reset ->
+      is_renewal o (sout cfg s o) = false /\ allow_renewal (cfg_step cfg o) = false /\
+      ~ In (Senescent, Active) (strans cfg s o).
+  Proof.
+    intros cfg [p l n e r sr sa la t] o Ha Hb Hr.
+    destruct o; try (exfalso; apply Hr; reflexivity); cbn [assigns_allow_renewal] in Hb; try discriminate Hb;
+      destruct p; unfold_step; try rewrite Ha; cbn [negb]; split_ifs; cbn [fst snd is_renewal negb allow_renewal];
+        (split; [reflexivity|split; [try assumption; try reflexivity|]]);
+        cbn; intros Hin; repeat (destruct Hin as [Hin|Hin]; [discriminate Hin|]); exact Hin.
+  Qed.
+
+  Lemma revoked_exec :
+    forall ops cfg s cap n spent,
+      allow_renewal cfg = false -> 0 <= len s -> Forall valid_op ops ->
+      Forall (fun o => assigns_allow_renewal o = false /\ o <> Reset) ops ->
+      0 <= n <= spent ->
+      Forall (fun p => is_renewal (fst p) (snd p) = false) (outcomesc cfg s ops) /\
+      ~ In (Senescent, Active) (streamc cfg s ops) /\
+      let '(s', cap', n', spent') := exec_countc cfg s cap n spent ops in
+      cap' = cap /\ 0 <= n' <= spent' /\ 0 <= len s' /\ spent' + len s' <= spent + len s.
+  Proof.
+    induction ops as [|o rest IH]; intros cfg s cap n spent Ha Hl Hv Hq Hn;
+      cbn [exec_count outcomes stream].
+    - split; [constructor|]. split; [intros []|]. repeat split; try assumption; lia.
+    - inversion Hv as [|? ? Hvo Hvr]; inversion Hq as [|? ? [Hqa Hqr] Hqrest]; subst.
+      destruct (revoked_step cfg s o Ha Hqa Hqr) as (Eren & Ha' & Hnin).
+      rewrite Eren.
+      destruct (hayflick_step cfg s o Hl Hvo Eren) as [Hle Htt].
+      assert (Hc : 0 <= tick_cost o) by (destruct o; cbn in *; lia).
+      destruct (is_true_tick o (sout cfg s o)) eqn:Ett.
+      + specialize (Htt eq_refl).
+        specialize (IH (cfg_step cfg o) (sstate cfg s o) cap (if tick_cost o =? 1 then n + 1 else n)
+                       (spent + tick_cost o) Ha' ltac:(lia) Hvr Hqrest).
+        destruct IH as (I1 & I2 & I3); [destruct (tick_cost o =? 1) eqn:E1; lia|].
+        split; [constructor; [exact Eren|exact I1]|].
+        split; [intros Hin; apply in_app_or in Hin; tauto|].
+        destruct (exec_countc (cfg_step cfg o) (sstate cfg s o) cap _ _ rest) as [[[s' cap'] n'] spent'].
+        lia.
+      + specialize (IH (cfg_step cfg o) (sstate cfg s o) cap n spent Ha' ltac:(lia) Hvr Hqrest Hn).
+        destruct IH as (I1 & I2 & I3).
+        split; [constructor; [exact Eren|exact I1]|].
+        split; [intros Hin; apply in_app_or in Hin; tauto|].
+        destruct (exec_countc (cfg_step cfg o) (sstate cfg s o) cap n spent rest) as [[[s' cap'] n'] spent'].
+        lia.
+  Qed.
+
+  Lemma revoked_renewal_is_final_proof :
+    forall cfg s ops,
+      allow_renewal cfg = false -> 0 <= len s -> Forall valid_op ops ->
+      Forall (fun o => assigns_allow_renewal o = false /\ o <> Reset) ops ->
+      Forall (fun p => is_renewal (fst p) (snd p) = false) (outcomesc cfg s ops) /\
+      ~ In (Senescent, Active) (streamc cfg s ops) /\
+      let '(s', cap, n, spent) := exec_countc cfg s (len s) 0 0 ops in
+      0 <= n <= spent /\ 0 <= len s' /\ spent + len s' <= len s.
+  Proof.
+    intros cfg s ops Ha Hl Hv Hq.
+    destruct (revoked_exec ops cfg s (len s) 0 0 Ha Hl Hv Hq ltac:(lia)) as (A & B & C).
+    split; [exact A|]. split; [exact B|].
+    destruct (exec_countc cfg s (len s) 0 0 ops) as [[[s' cap'] n'] spent']. lia.
   Qed.
 
   (* -------------------------------------------------------------------- *)
@@ -282,21 +473,22 @@ Section Proofs.
       (forall s, ph s = Active -> 0 < ops_count s ->
          rate_hit (err_count s + 1) (ops_count s) = true ->
          ph (sstate cfg s RecordError) = Senescent /\ sout cfg s RecordError = Ret (RBool false)) /\
-      (* lifetime / idle time, after any history *)
+      (* lifetime / idle time, after any history (with the limits then in force) *)
       (forall ops,
          let s := execc cfg (init cfg) ops in
+         let c := cfg_exec cfg ops in
          ph s = Active ->
          exists t0 t1, started_at s = Some t0 /\ last_activity s = Some t1 /\
-           (((exists l, max_lifetime cfg = Some l /\ l <> 0 /\ l <= now s - t0) \/
-             (exists l, idle_timeout cfg = Some l /\ l <> 0 /\ l <= now s - t1)) ->
-            ph (sstate cfg s CheckTimeouts) = Senescent /\
-            sout cfg s CheckTimeouts = Ret (RBool false))).
+           (((exists l, max_lifetime c = Some l /\ l <> 0 /\ l <= now s - t0) \/
+             (exists l, idle_timeout c = Some l /\ l <> 0 /\ l <= now s - t1)) ->
+            ph (sstate c s CheckTimeouts) = Senescent /\
+            sout c s CheckTimeouts = Ret (RBool false))).
   Proof.
     intros cfg. split; [|split].
     - apply error_count_limit_proof.
     - apply error_rate_limit_proof.
-    - intros ops s Hp.
-      destruct (timed_exec cfg ops (init cfg) (timed_init cfg) (or_introl Hp)) as (t0 & t1 & E0 & E1).
+    - intros ops s c Hp.
+      destruct (timed_exec ops cfg (init cfg) (timed_init cfg) (or_introl Hp)) as (t0 & t1 & E0 & E1).
       exists t0, t1. repeat split; try assumption; eapply time_limit_step; eassumption.
   Qed.
 
@@ -337,31 +529,32 @@ Section Proofs.
   Qed.
 
   Lemma started_exec :
-    forall cfg ops s t0, ph s <> Nascent -> started_at s = Some t0 ->
+    forall ops cfg s t0, ph s <> Nascent -> started_at s = Some t0 ->
       ~ In Reset ops -> Forall forward_op ops ->
       ph (execc cfg s ops) <> Nascent /\ started_at (execc cfg s ops) = Some t0 /\
       now s <= now (execc cfg s ops).
   Proof.
-    intros cfg ops; induction ops as [|o rest IH]; intros s t0 Hp H0 Hn Hf; cbn [exec].
+    induction ops as [|o rest IH]; intros cfg s t0 Hp H0 Hn Hf; cbn [exec].
     - repeat split; try assumption; lia.
     - inversion Hf as [|? ? Hfo Hfr]; subst.
       destruct (started_step cfg s o t0 Hp H0) as (Hp' & H0' & Hle); [intro E; apply Hn; left; auto|exact Hfo|].
-      destruct (IH (sstate cfg s o) t0 Hp' H0') as (A & B & C); [intro Hin; apply Hn; right; exact Hin|exact Hfr|].
+      destruct (IH (cfg_step cfg o) (sstate cfg s o) t0 Hp' H0') as (A & B & C);
+        [intro Hin; apply Hn; right; exact Hin|exact Hfr|].
       repeat split; try assumption; lia.
   Qed.
 
   Lemma lifetime_expiry_permanent_proof :
     forall cfg ops s t0 l,
       ph s <> Nascent -> started_at s = Some t0 ->
-      max_lifetime cfg = Some l -> l <> 0 -> l <= now s - t0 ->
+      max_lifetime (cfg_exec cfg ops) = Some l -> l <> 0 -> l <= now s - t0 ->
       ~ In Reset ops -> Forall forward_op ops ->
       l <= now (execc cfg s ops) - t0 /\ started_at (execc cfg s ops) = Some t0 /\
       (ph (execc cfg s ops) = Active ->
-       ph (sstate cfg (execc cfg s ops) CheckTimeouts) = Senescent /\
-       sout cfg (execc cfg s ops) CheckTimeouts = Ret (RBool false)).
+       ph (sstate (cfg_exec cfg ops) (execc cfg s ops) CheckTimeouts) = Senescent /\
+       sout (cfg_exec cfg ops) (execc cfg s ops) CheckTimeouts = Ret (RBool false)).
   Proof.
     intros cfg ops s t0 l Hp H0 E Hz Hle Hn Hf.
-    destruct (started_exec cfg ops s t0 Hp H0 Hn Hf) as (_ & B & C).
+    destruct (started_exec ops cfg s t0 Hp H0 Hn Hf) as (_ & B & C).
     assert (Hle' : l <= now (execc cfg s ops) - t0) by lia.
     repeat split; try assumption; eapply lifetime_limit_step; eassumption.
   Qed.
@@ -380,30 +573,30 @@ Section Proofs.
   Qed.
 
   Lemma quiet_exec :
-    forall cfg ops s t1, ph s <> Nascent -> last_activity s = Some t1 -> Forall quiet_op ops ->
+    forall ops cfg s t1, ph s <> Nascent -> last_activity s = Some t1 -> Forall quiet_op ops ->
       ph (execc cfg s ops) <> Nascent /\ last_activity (execc cfg s ops) = Some t1 /\
       now s <= now (execc cfg s ops).
   Proof.
-    intros cfg ops; induction ops as [|o rest IH]; intros s t1 Hp H1 Hq; cbn [exec].
+    induction ops as [|o rest IH]; intros cfg s t1 Hp H1 Hq; cbn [exec].
     - repeat split; try assumption; lia.
     - inversion Hq as [|? ? Hqo Hqr]; subst.
       destruct (quiet_step cfg s o t1 Hp H1 Hqo) as (Hp' & H1' & Hle).
-      destruct (IH (sstate cfg s o) t1 Hp' H1' Hqr) as (A & B & C).
+      destruct (IH (cfg_step cfg o) (sstate cfg s o) t1 Hp' H1' Hqr) as (A & B & C).
       repeat split; try assumption; lia.
   Qed.
 
   Lemma idle_expiry_persists_proof :
     forall cfg ops s t1 l,
       ph s <> Nascent -> last_activity s = Some t1 ->
-      idle_timeout cfg = Some l -> l <> 0 -> l <= now s - t1 ->
+      idle_timeout (cfg_exec cfg ops) = Some l -> l <> 0 -> l <= now s - t1 ->
       Forall quiet_op ops ->
       l <= now (execc cfg s ops) - t1 /\ last_activity (execc cfg s ops) = Some t1 /\
       (ph (execc cfg s ops) = Active ->
-       ph (sstate cfg (execc cfg s ops) CheckTimeouts) = Senescent /\
-       sout cfg (execc cfg s ops) CheckTimeouts = Ret (RBool false)).
+       ph (sstate (cfg_exec cfg ops) (execc cfg s ops) CheckTimeouts) = Senescent /\
+       sout (cfg_exec cfg ops) (execc cfg s ops) CheckTimeouts = Ret (RBool false)).
   Proof.
     intros cfg ops s t1 l Hp H1 E Hz Hle Hq.
-    destruct (quiet_exec cfg ops s t1 Hp H1 Hq) as (_ & B & C).
+    destruct (quiet_exec ops cfg s t1 Hp H1 Hq) as (_ & B & C).
     assert (Hle' : l <= now (execc cfg s ops) - t1) by lia.
     repeat split; try assumption; eapply idle_limit_step; eassumption.
   Qed.
@@ -421,19 +614,19 @@ Section Proofs.
   (* every call returns                                                     *)
 
   Lemma returns_step :
-    forall cfg s o, in_range cfg s -> valid_op o -> exists r, sout cfg s o = Ret r.
+    forall cfg s o, sane cfg s -> valid_op o -> exists r, sout cfg s o = Ret r.
   Proof.
-    intros cfg [p l n e r sr sa la t] o. unfold in_range. cbn [len]. intros Hr Hv.
+    intros cfg [p l n e r sr sa la t] o. unfold sane. cbn [len]. intros Hr Hv.
     destruct o; destruct p; cbn [valid_op] in Hv;
       unfold_step; split_ifs; cbn [fst snd]; try (eexists; reflexivity); exfalso; lia.
   Qed.
 
   Lemma every_call_returns_proof :
     forall cfg ops o, 0 <= max_ops cfg -> Forall valid_op ops -> valid_op o ->
-      exists r, sout cfg (execc cfg (init cfg) ops) o = Ret r.
+      exists r, sout (cfg_exec cfg ops) (execc cfg (init cfg) ops) o = Ret r.
   Proof.
     intros cfg ops o H Hv Ho. apply returns_step; [|exact Ho].
-    apply in_range_exec; [apply in_range_init; exact H|exact Hv].
+    apply sane_exec; [apply sane_init; exact H|exact Hv].
   Qed.
 End Proofs.
 
